@@ -401,3 +401,34 @@ Example ex_vm_quirk_null :
   j2t_text code_vm exD exo_vm (TStruct 0) [123; 34; 119; 34; 58; 110; 117; 108; 108; 125] = Err E_KIND /\
   j2t_text strict  exD exo_vm (TStruct 0) [123; 34; 119; 34; 58; 110; 117; 108; 108; 125] = Ok [0].
 Proof. vm_compute. split; reflexivity. Qed.
+
+(* ---- BinaryConv.do (j2t_do): what sits in front of the converter ---- *)
+(* a text that is JSON for the converter (not string-typed root, or starting with the quote) is handled by the prefix parse alone:
+   leading blanks skipped, nothing after the top-level value is looked at (see j2t_text_print), truncation inside the value = parse error *)
+Theorem j2t_do_is_text :
+  forall P D o t c r, (is_str_ty t = false \/ c = 34) -> j2t_do P D o t (c :: r) = j2t_text P D o t (c :: r).
+Proof. exact j2t_do_text. Qed.
+Print Assumptions j2t_do_is_text.
+
+(* the documented unquoted-string special case: the whole text is the string *)
+Theorem j2t_do_unquoted_string :
+  forall P D o t c r, is_str_ty t = true -> c <> 34 -> j2t_do P D o t (c :: r) = j2t_val P D o t 1 (JStr (c :: r)).
+Proof. exact j2t_do_unquoted. Qed.
+Print Assumptions j2t_do_unquoted_string.
+
+Theorem j2t_do_encodes_denoted :
+  forall dlex D o v t r, conf dlex D t v = true -> Z.of_nat (depth v) <= max_level -> stop r = true ->
+  j2t_do strict D o t (json_print (json_of dlex D o t v) ++ r) = Ok (encode v).
+Proof. exact j2t_do_encodes_denoted_lemma. Qed.
+Print Assumptions j2t_do_encodes_denoted.
+
+(* top-level STRING descriptor: the literal abc in quotes followed by blanks is the 3-byte string; the same literal without its closing
+   quote is an error; abc without any quote is the documented raw text *)
+Example ex_do_string_root :
+  j2t_do strict [] (mkOpts false false false false) TString [34; 97; 98; 99; 34; 10] = Ok [0; 0; 0; 3; 97; 98; 99] /\
+  j2t_do strict [] (mkOpts false false false false) TString [34; 97; 98; 99] = Err E_PARSE /\
+  j2t_do strict [] (mkOpts false false false false) TString [97; 98; 99] = Ok [0; 0; 0; 3; 97; 98; 99] /\
+  j2t_do strict [] (mkOpts false false false false) (TList TI32) [32; 91; 49; 93; 32] = Ok [8; 0; 0; 0; 1; 0; 0; 0; 1] /\
+  j2t_do strict [] (mkOpts false false false false) (TList TI32) [91; 49] = Err E_PARSE /\
+  j2t_do strict [] (mkOpts false false false false) (TList TI32) [] = Err E_PARSE.
+Proof. vm_compute. repeat split; reflexivity. Qed.
